@@ -273,11 +273,7 @@ func siteFromDump(dump string) string {
 			if strings.Contains(fn, "verif") || strings.Contains(fn, "errRecover") || isHelper(fn) {
 				continue
 			}
-			if i := strings.Index(fn, "("); i > 0 && !strings.HasPrefix(fn[i:], "(*") {
-				fn = fn[:i]
-			}
-			fn = strings.TrimSuffix(fn, "(...)")
-			return fn
+			return reArgs.ReplaceAllString(fn, "")
 		}
 	}
 	return "?"
